@@ -127,9 +127,18 @@ def rebuild(snap: dict):  # noqa: ANN201
 # --------------------------------------------------------------------------
 # op execution
 # --------------------------------------------------------------------------
-def _value(v):  # noqa: ANN001, ANN202
-    from mxlpy import InitialAssignment
+def _value(v, boxes: dict | None = None, kind: str = "parameter"):  # noqa: ANN001, ANN202
+    from mxlpy import InitialAssignment, Parameter, Variable
 
+    if isinstance(v, dict) and "box" in v:
+        # a Parameter / Variable CONTAINER object the caller keeps and passes again (under
+        # another name, in a later call): the library must not adopt or change it
+        if boxes is None:
+            boxes = {}
+        key = (kind, v["box"])
+        if key not in boxes:
+            boxes[key] = Parameter(value=float(v["value"])) if kind == "parameter" else Variable(initial_value=float(v["value"]))
+        return boxes[key]
     if isinstance(v, dict):
         return InitialAssignment(fn=FN[v["ia"]], args=list(v["args"]))
     return v
@@ -164,12 +173,14 @@ def _series(vals):  # noqa: ANN001, ANN202
     return pd.Series([float(v) for v in vals], dtype=float)
 
 
-def apply_op(m, op: dict) -> None:  # noqa: ANN001, C901, PLR0912, PLR0915
+def apply_op(m, op: dict, boxes: dict | None = None) -> None:  # noqa: ANN001, C901, PLR0912, PLR0915
     k = op["op"]
+    if boxes is None:
+        boxes = {}
     if k == "add_parameter":
         m.add_parameter(op["name"], _value(op["value"]))
     elif k == "add_parameters":
-        m.add_parameters({n: _value(v) for n, v in op["items"]})
+        m.add_parameters({n: _value(v, boxes, "parameter") for n, v in op["items"]})
     elif k == "remove_parameter":
         m.remove_parameter(op["name"])
     elif k == "remove_parameters":
@@ -177,7 +188,7 @@ def apply_op(m, op: dict) -> None:  # noqa: ANN001, C901, PLR0912, PLR0915
     elif k == "update_parameter":
         m.update_parameter(op["name"], _value(op["value"]))
     elif k == "update_parameters":
-        m.update_parameters({n: _value(v) for n, v in op["items"]})
+        m.update_parameters({n: _value(v, boxes, "parameter") for n, v in op["items"]})
     elif k == "scale_parameter":
         m.scale_parameter(op["name"], op["factor"])
     elif k == "scale_parameters":
@@ -187,7 +198,7 @@ def apply_op(m, op: dict) -> None:  # noqa: ANN001, C901, PLR0912, PLR0915
     elif k == "add_variable":
         m.add_variable(op["name"], _value(op["value"]))
     elif k == "add_variables":
-        m.add_variables({n: _value(v) for n, v in op["items"]})
+        m.add_variables({n: _value(v, boxes, "variable") for n, v in op["items"]})
     elif k == "remove_variable":
         m.remove_variable(op["name"], remove_stoichiometries=op.get("remove_stoichiometries", True))
     elif k == "remove_variables":
@@ -195,7 +206,7 @@ def apply_op(m, op: dict) -> None:  # noqa: ANN001, C901, PLR0912, PLR0915
     elif k == "update_variable":
         m.update_variable(op["name"], _value(op["value"]))
     elif k == "update_variables":
-        m.update_variables({n: _value(v) for n, v in op["items"]})
+        m.update_variables({n: _value(v, boxes, "variable") for n, v in op["items"]})
     elif k == "make_variable_static":
         m.make_variable_static(op["name"], value=op.get("value"))
     elif k == "add_derived":
@@ -385,6 +396,7 @@ class Gen:
         self.cfg = cfg
         self.pool = cfg["pool"]
         self.recent_removed: list[str] = []
+        self.box_values: dict = {}
 
     def num(self, label: str = "num") -> float:
         r = self.rng(label)
@@ -424,6 +436,16 @@ class Gen:
         r = self.rng("fns")
         fns = [f for f in SCALAR_FNS if self.cfg["poison"] or f != "div"]
         return r.choice(fns)
+
+    def boxed(self, names: dict) -> object:
+        """A value for a batch op: sometimes a container object the caller keeps."""
+        r = self.rng("boxes")
+        if r.random() < self.cfg.get("box_rate", 0.0):
+            key = r.choice(["P", "Q"])
+            if key not in self.box_values:
+                self.box_values[key] = self.num("boxnum") or 1.5
+            return {"box": key, "value": self.box_values[key]}
+        return self.value(names)
 
     def value(self, names: dict) -> object:
         r = self.rng("values")
@@ -546,7 +568,7 @@ class Gen:
                     bad = invalid and i == n - 1 and names
                     nm = r.choice(sorted(names)) if bad else self.fresh_name(names | {u: ["x"] for u in used})
                     used.add(nm)
-                    items.append([nm, self.value(names)])
+                    items.append([nm, self.boxed(names)])
                 return {"op": kind, "items": items}
             tnames = []
             for i in range(n):
@@ -557,7 +579,7 @@ class Gen:
                 return {"op": kind, "names": tnames}
             if kind == "scale_parameters":
                 return {"op": kind, "items": [[t, r.choice([0.5, 2.0, 1.5])] for t in tnames]}
-            return {"op": kind, "items": [[t, self.value(names)] for t in tnames]}
+            return {"op": kind, "items": [[t, self.boxed(names)] for t in tnames]}
         tk = TARGET_KIND[kind]
         name = self.target(tk, snap, names, invalid)
         if kind in ("remove_parameter", "remove_derived", "remove_reaction", "remove_readout", "remove_surrogate", "remove_data"):
@@ -669,6 +691,7 @@ def make_config(rng: SimRng, tier: str) -> dict:
         # swarm focus: ops on one kind of component dominate this run
         "focus": focus,
         "clone_rate": r.choice([0.0, 0.0, 0.05, 0.1]),
+        "box_rate": r.choice([0.0, 0.0, 0.3, 0.6]),
     }
 
 
@@ -697,6 +720,7 @@ class Executor:
         self.pending_mut = False
         self.i = -1
         self.namespace_ok = True
+        self.boxes: dict = {}  # container objects the simulated caller keeps
 
     def _viol(self, check: str, sig: list[str], detail: str) -> None:
         v = violation(self.prop, check, sig, self.i, detail)
@@ -729,7 +753,7 @@ class Executor:
             except RebuildError:
                 fresh = None
         was_populated = self.memo_populated
-        out_m = outcome(apply_op, self.m, copy.deepcopy(op))
+        out_m = outcome(apply_op, self.m, copy.deepcopy(op), self.boxes)
         post = snapshot(self.m)
         post_c = canon(post)
         post_ids = dict(self.m.ids)
